@@ -123,7 +123,8 @@ Theorem C08_judge_sound :
     NoDup final_ids /\ (forall x, In x final_ids -> In x (ids pre) \/ In x (ids offered)) /\
     incl (ids pre) final_ids /\
     (exists total, sum_values value_zero (map u_val inputs) = Ok total /\ value_eqb_sem total explicit = true) /\
-    covers_coin sc inputs fee /\ covers_assets sc inputs.
+    covers_coin sc inputs fee /\ covers_assets sc inputs /\
+    (lf_clause_applies strat sc = true -> lf_largest_b offered (ids pre) final_ids = true).
 Proof. exact judge_sound. Qed.
 Print Assumptions C08_judge_sound.
 
